@@ -45,6 +45,8 @@ def run(ctx):
     def peak(A):
         return float((np.abs(np.atleast_2d(A)) ** 2).sum(axis=0).max())
 
+    untraced = [0]
+
     def traced(x, **kw):
         log = []
         dv._verif_tracer = lambda kind, h, xl, A: log.append((kind, float(h), np.array(A, copy=True)))
@@ -127,9 +129,15 @@ def run(ctx):
             prev = A
             pmax = max(pmax, peak(A))
         tot = sum(h for kind, h, A in log if kind != "start")
-        events.append({"kind": "ctrl", "steps": steps, "L_ppb": int(min(10 ** 9, abs(tot / L - 1) * 1e9)), "nsteps": len(steps),
-                       "bound": int(math.ceil(gamma * pmax * L / phi)) + 2})
-        meta.append(("ctrl", npol, lead0))
+        if not log:
+            # the call reported nothing through the hook (the hook is ours and optional: a library without it, or a closed-form path,
+            # is not wrong for that) - the controller clauses are not observable for this call; energy, finiteness, exact solutions,
+            # the reference integration and the convergence bounds still decide
+            untraced[0] += 1
+        else:
+            events.append({"kind": "ctrl",     "steps": steps, "L_ppb": int(min(10 ** 9, abs(tot / L - 1) * 1e9)), "nsteps": len(steps),
+                           "bound": int(math.ceil(gamma * pmax * L / phi)) + 2})
+            meta.append(("ctrl", npol, lead0))
         ctx.case(("traced", npol, lead0, it % 4 < 2, b2 > 0, b3 != 0, al, phi), {"FIBER": dict(length=L, alpha=al, beta_2=b2, beta_3=b3, gamma=gamma, phi_max=phi), "n": n, "npol": npol, "steps": len(steps)})
         if npol == 1:
             two = FIBER(optical_signal(np.array([fld, 0 * fld])), L, al, b2, b3, gamma, phi)
@@ -260,6 +268,8 @@ def run(ctx):
         law("result-independent-of-call-history", after + 1, fresh + 1)
         ctx.case(("history", it))
     gv.clean()
+    if untraced[0]:
+        ctx.assumptions.append(f"{untraced[0]} FIBER calls reported no steps through the tracer hook: the controller clauses were not observable for them")
     ctx.assumptions.append("convergence to the NLSE is decided against exact solutions the lattices provide (SPM with gamma*P0*L=(pi/2)m, fundamental soliton "
                            "for beta2*gamma>0: out=j^m*in, linear limit = DM) plus conservation and self-convergence; no independent numerical reference solver")
     for idx, clause in ctx.validate("FiberTrace", events, note="FIBER traces and measurements"):
